@@ -55,6 +55,8 @@ structure LinkHyp : Prop where
   qa : Quiet a.s 0
   qb : Quiet b.s 0
   bIdle : (b.tp 0).hasPending = false
+  aInfo : InfoIdle a 0
+  bInfo : InfoIdle b 0
   mdst : m.dst = db.source
   len9 : 9 ≤ m.len
   len223 : m.len ≤ 223
@@ -86,7 +88,7 @@ theorem LinkHyp.none (h : LinkHyp a b da db m j S' a0) : findIdx (sessOf da.sour
 theorem LinkHyp.jlt (h : LinkHyp a b da db m j S' a0) : j < S'.length := findIdx_lt _ _ _ h.hj
 
 theorem LinkHyp.at (h : LinkHyp a b da db m j S' a0) (tA tB : Nat) : LinkHyp (atTime a tA) (atTime b tB) da db m j S' a0 :=
-  ⟨h.devA, h.devB, atTime_quiet tA h.qa, atTime_quiet tB h.qb, h.bIdle, h.mdst, h.len9, h.len223, h.hdata, h.pgn24, h.pgn0,
+  ⟨h.devA, h.devB, atTime_quiet tA h.qa, atTime_quiet tB h.qb, h.bIdle, h.aInfo, h.bInfo, h.mdst, h.len9, h.len223, h.hdata, h.pgn24, h.pgn0,
    h.known, h.hS, h.hj, h.ha0⟩
 
 /-- first round: RTS → CTS(1) → first window (A polls less than 50 ms after `SendMsg`) -/
@@ -99,13 +101,13 @@ theorem round_first (h : LinkHyp a b da db m j S' a0) (tA tB dB dA : Nat) (hdA :
   have h' := h.at (tA + dA) (tB + dB)
   unfold round
   simp only [wire_upd, List.nil_append, advance_upd]
-  have hp := poll_rts (atTime b (tB + dB)) db m da.source j S' a0 h'.devB h'.qb (by omega) h.mdst h.len223 h.pgn24 h.bIdle h.known
+  have hp := poll_rts (atTime b (tB + dB)) db m da.source j S' a0 h'.devB h'.qb (by omega) h.mdst h.len223 h.pgn24 h.bIdle h.bInfo h.known
     h.hS h.hj h.ha0
   rw [show (atTime b (tB + dB)).tp = b.tp from rfl, show (atTime b (tB + dB)).slots = b.slots from rfl] at hp
   rw [hp]
   unfold rcv
   simp only [wire_upd, List.nil_append, advance_upd]
-  have hc := poll_cts (atTime a (tA + dA)) da m db.source 0 tA 50 (tpPacketCount m.len) a.slots a.out h'.devA h'.qa h.mdst
+  have hc := poll_cts (atTime a (tA + dA)) da m db.source 0 tA 50 (tpPacketCount m.len) a.slots a.out h'.devA h'.qa h.aInfo h.mdst
     (by omega) h.len223 h.pgn24 (by omega) ⟨by show tA ≤ tA + dA; omega, by show tA + dA < tA + 50; omega⟩
     (by show tA + dA + 100 < M64; exact h64) (by omega)
   rw [txTp_atTime, txTp_atTime] at hc
@@ -128,14 +130,14 @@ theorem round_mid (h : LinkHyp a b da db m j S' a0) (k tA tB mt dB dA : Nat) (hk
   unfold round snd rcv
   simp only [wire_upd, List.nil_append, hmin, advance_upd]
   have hw := poll_window (atTime b (tB + dB)) db m da.source j S' a0 k (tpCtsPackets (tpPacketCount m.len)) mt rfl h'.devB h'.qb
-    (by omega) h.mdst h.none h.jlt h.len223 h.bIdle hkc (by omega)
+    (by omega) h.mdst h.none h.jlt h.len223 h.bIdle h.bInfo hkc (by omega)
   unfold rcv at hw
   rw [show (atTime b (tB + dB)).tp = b.tp from rfl] at hw
   rw [show (atTime b tB).tp = b.tp from rfl]
   rw [hw]
   simp only [wire_upd, List.nil_append, advance_upd]
   have hc := poll_cts (atTime a (tA + dA)) da m db.source (k + tpCtsPackets (tpPacketCount m.len)) tA 100 (tpPacketCount m.len) a.slots a.out
-    h'.devA h'.qa h.mdst (by omega) h.len223 h.pgn24 (by omega) ⟨by show tA ≤ tA + dA; omega, by show tA + dA < tA + 100; omega⟩
+    h'.devA h'.qa h.aInfo h.mdst (by omega) h.len223 h.pgn24 (by omega) ⟨by show tA ≤ tA + dA; omega, by show tA + dA < tA + 100; omega⟩
     (by show tA + dA + 100 < M64; exact h64) (by omega)
   rw [txTp_atTime, txTp_atTime] at hc
   rw [hc]
@@ -158,7 +160,7 @@ theorem round_last (h : LinkHyp a b da db m j S' a0) (k tA tB mt dB dA : Nat) (h
   unfold round snd rcv
   simp only [wire_upd, List.nil_append, hmin, advance_upd]
   obtain ⟨S'', hw⟩ := poll_last (atTime b (tB + dB)) db m da.source j S' a0 k (tpCtsPackets (tpPacketCount m.len)) (tpPacketCount m.len - k) mt
-    rfl h'.devB h'.qb (by omega) h.mdst h.none h.jlt h.len223 h.hdata h.bIdle hkc (by omega) (by omega) (by omega)
+    rfl h'.devB h'.qb (by omega) h.mdst h.none h.jlt h.len223 h.hdata h.bIdle h.bInfo hkc (by omega) (by omega) (by omega)
   unfold rcv at hw
   rw [show (atTime b (tB + dB)).tp = b.tp from rfl] at hw
   rw [show (atTime b tB).tp = b.tp from rfl]
@@ -168,7 +170,7 @@ theorem round_last (h : LinkHyp a b da db m j S' a0) (k tA tB mt dB dA : Nat) (h
   have e : k + (tpPacketCount m.len - k) = tpPacketCount m.len := by omega
   rw [e]
   have hc := poll_endack (atTime a (tA + dA)) da m db.source (tpPacketCount m.len) tA 100 m.len (tpPacketCount m.len) a.slots a.out
-    h'.devA h'.qa h.mdst (by omega) h.pgn24 (by omega) ⟨by show tA ≤ tA + dA; omega, by show tA + dA < tA + 100; omega⟩
+    h'.devA h'.qa h.aInfo h.mdst (by omega) h.pgn24 (by omega) ⟨by show tA ≤ tA + dA; omega, by show tA + dA < tA + 100; omega⟩
     (by show tA + dA + 100 < M64; exact h64)
   rw [txTp_atTime, doneTp_atTime] at hc
   rw [hc]
